@@ -123,7 +123,7 @@ impl Property for C05 {
                     } else {
                         Tri::Unknown
                     };
-                    let co = co_qual(g, sets.st.co_cycle);
+                    let co = co_qual_st(g, &sets.st, false);
                     if let Some((class, msg)) = check_answer(&case.pg.program, &lg.peeled, &ans, sets) {
                         out.fail(format!("{}:{}{}", sv.name(), class, co), format!("[{}] {}\n{}goal: {}\nanswer: {}", sv.name(), msg, low.text, lg.text, rendered));
                         continue;
